@@ -30,6 +30,7 @@ type ctxEnd struct {
 	peer      net.Conn
 	transport string
 	closers   []func()
+	libClose  func() // closes the library side only
 }
 
 func (e *ctxEnd) Close() {
@@ -75,6 +76,7 @@ func newCtxEnd(r *fw.Run, transport string) (*ctxEnd, error) {
 		a, b := net.Pipe()
 		c := varlink.VerifNewCtxConn(a)
 		e.rw, e.peer = c, b
+		e.libClose = func() { c.Close() }
 		e.closers = append(e.closers, func() { c.Close(); b.Close() })
 	case "unix", "tcp":
 		var a, b net.Conn
@@ -89,6 +91,7 @@ func newCtxEnd(r *fw.Run, transport string) (*ctxEnd, error) {
 		}
 		c := varlink.VerifNewCtxConn(a)
 		e.rw, e.peer = c, b
+		e.libClose = func() { c.Close() }
 		e.closers = append(e.closers, func() { c.Close(); b.Close() })
 	case "client-unix", "bridge":
 		p := filepath.Join(r.WorkDir, fmt.Sprintf("x%d", r.Seq()))
@@ -127,6 +130,7 @@ func newCtxEnd(r *fw.Run, transport string) (*ctxEnd, error) {
 		e.conn = conn
 		e.rw = varlink.VerifConnOf(conn)
 		peer := e.peer
+		e.libClose = func() { conn.Close() }
 		e.closers = append(e.closers, func() { peer.Close(); conn.Close() })
 	default:
 		return nil, fmt.Errorf("unknown transport %q", transport)
